@@ -83,3 +83,11 @@ Proof.
   unfold same_class. rewrite forallb_forall. intros H c Hc. apply Bool.eqb_prop. apply H.
   unfold bytes256. apply in_map_iff. exists (N.to_nat c). split; [apply N2Nat.id|]. apply in_seq. change 256%N with (N.of_nat 256) in Hc. lia.
 Qed.
+
+(* <ctype.h> as the matcher and the strtol models rely on it *)
+Theorem tie_ctype :
+  same_class MatchModel.islower Generated.gen_cc_islower = true /\ same_class MatchModel.isupper Generated.gen_cc_isupper = true /\
+  same_class MatchModel.isdigit Generated.gen_cc_isdigit = true /\ same_class MatchModel.isspace Generated.gen_cc_isspace = true /\
+  same_class ParserModel.isspace Generated.gen_cc_isspace = true /\
+  map MatchModel.tolower bytes256 = Generated.gen_tolower.
+Proof. vm_compute. repeat split. Qed.
